@@ -310,7 +310,8 @@ func LeafValue(r *rand.Rand, s *model.Schema, name string) interface{} {
 		case 1:
 			return int(r.Int31())
 		case 2:
-			return []interface{}{int32(math.MaxInt32), int32(math.MinInt32), 0, int64(7), uint8(200), int8(-7), uint16(60000), int16(-300), uint32(70000)}[r.Intn(9)]
+			return []interface{}{int32(math.MaxInt32), int32(math.MinInt32), 0, int64(7), uint8(200), int8(-7), uint16(60000), int16(-300), uint32(70000),
+				int(math.MinInt32), int64(math.MinInt32), int64(math.MaxInt32), int(math.MaxInt32), uint32(math.MaxInt32)}[r.Intn(14)]
 		}
 		return r.Intn(100)
 	case "Int64":
